@@ -134,8 +134,10 @@ PROPS["C11"] = {
 PROPS["C09"] = {
     "claim": "namespace_for_prefix / prefix_for_namespace / is_prefix_defined / namespaces_in_scope / inherited_prefixes / "
              "unresolved_namespaces / node_name_ref / full_name agree with a nearest-declaration-wins reference scope",
-    "harnesses": [H("h_c09_scope", {"NC1": 3}, {"NC1": 8}, shards={"quick": shard_product(("c0", 8), ("node", 4)), "thorough": shard_product(("c0", 8), ("node", 4))}, budget=(900, 2400))],
-    "bounds": {"quick": "element chains of depth 3, outer and inner element with one of 8 declaration layouts over prefixes "
+    "harnesses": [H("h_c09_scope", {"NC1": 3}, {"NC1": 8}, shards={"quick": shard_product(("c0", 8), ("node", 4)), "thorough": shard_product(("c0", 8), ("node", 4))}, budget=(900, 2400)),
+                  H("h_c09_loose")],
+    "bounds": {"quick": "7 kinds of parentless node (text, comment, PI, attribute, namespace, document, element): only xml is in scope; "
+                        "element chains of depth 3 (the innermost element also carries xml:lang), outer and inner element with one of 8 (inner: 9) declaration layouts over prefixes "
                         "{'',p,q} and namespaces {none,A,B}, middle element one of 3 (thorough: 8; 512 layouts), element name in 3 namespaces, attribute name in 2; queries from the "
                         "innermost element, its text child, its attribute node and the middle element", "thorough": "same"},
     "outside": "deeper chains, more than two declarations per element, declarations on unattached siblings",
@@ -259,10 +261,10 @@ PROPS["C10"] = {
              "own), and create_missing_prefixes (called on document, root or inner element, once and again after adding a node "
              "in a new namespace) makes the tree serialisable without changing any name, attribute or content",
     "harnesses": [
-        H("h_c10_names", shards={"quick": shard_product(("c0", 8), ("root", 2)), "thorough": shard_product(("c0", 8), ("root", 2), ("c1", 8))}),
-        H("h_c10_missing_prefixes", {"CFG": 4, "NSK": 2}, {"CFG": 5, "NSK": 3}, shards={"quick": shard_product(("c0", 4), ("target", 4)), "thorough": shard_product(("c0", 5), ("target", 4), ("c1", 5))}, budget=(900, 3000)),
+        H("h_c10_names", {"SAMEINNER": 1}, {"SAMEINNER": 0}, shards={"quick": shard_product(("c0", 8), ("root", 2), ("ns0", 3)), "thorough": shard_product(("c0", 8), ("root", 2), ("c1", 8))}),
+        H("h_c10_missing_prefixes", {"CFG": 4, "NSK": 2}, {"CFG": 5, "NSK": 3}, shards={"quick": shard_product(("c0", 4), ("target", 4), ("c1", 4)), "thorough": shard_product(("c0", 5), ("target", 4), ("c1", 5))}, budget=(900, 3000)),
     ],
-    "bounds": {"quick": "3-level element chains, 8x8 declaration layouts, element names in {none,A,B}^3, attribute in {none,A}; "
+    "bounds": {"quick": "3-level element chains, 8x8 declaration layouts, element names in {none,A,B}^2 (quick: both inner elements in the same namespace; thorough ^3), attribute in {none,A}; "
                         "create_missing_prefixes: 4x4 layouts, names in {none,A}^3, 4 call targets, two rounds",
                "thorough": "5x5 layouts and {none,A,B}^3 for create_missing_prefixes"},
     "outside": "fragments with several top-level elements; deeper trees",
